@@ -242,7 +242,7 @@ def gen_cmds(r,depth,n,in_div=False,in_chord=False,top=False):
             L=gen_len(r)
             if L is not None and (L[0][0] or L[0][1] is None): L=((False,r.choice([1,2,4,8]),L[0][2]),L[1])
             out.append(('chord',b,L,r.choice([None,None,50,100]),r.choice([None,None,77])))
-        elif x<0.96 and top: out.append(('tr',r.randrange(0,5)))
+        elif x<0.96 and top: out.append(('tr',r.randrange(0,5) if r.random()<0.85 else r.choice([9,10,15,16,17,18,20,33])))      # (tracks at and beyond the sixteen channels: default channel = number - 1, at most 16)
         elif x<0.97 and top: out.append(('ch',r.randrange(0,18)))
         elif x<0.98 and top: out.append(('kshift',r.randrange(-3,4)))
         elif x<0.99 and top: out.append(('tkey',r.randrange(-2,3)))
